@@ -266,7 +266,7 @@ func runC04(t *testing.T, seed uint64, planJSON []byte, tier string) (res *Resul
 			sim.Run(func() bool {
 				for _, s := range net.Sessions() {
 					if !s.IsClosed() && tc.SessionIsTM(s.SimID()) {
-						return sim.Pending() == 0
+						return sim.Enabled() == 0
 					}
 				}
 				return false
